@@ -62,7 +62,16 @@ def cases(ctx):
             if rng.random() < 0.3:
                 c["shift4"] = [4 * rng.choice([0, 1, 2, 3, shape[d], shape[d] + 1]) * rng.choice([1, 1, -1]) for d in range(nd)]
                 c["sform"] = rng.choice(["uint8", "uint16", "uint64", "int8", "list-uint8", "pyint"])
+            if rng.random() < 0.15:
+                # one number for all axes ("If a float, shift is the same for each axis")
+                c["shift4"] = [rng.choice([0, 4, -4, 2, 1, 8, -3])] * nd
+                c["sform"] = "scalar"
         elif kind == "zoom":
+            if rng.random() < 0.25:
+                # an axis of length one (a single row, a single column, a single plane)
+                shape[rng.randrange(nd)] = 1
+                c["shape"] = shape
+                c["vals"] = [rng.randint(-8, 9) for _ in range(gen.size(shape))]
             c["out_shape"] = [rng.choice([s, s, 2 * s - 1, 2 * s, max(1, s - 1), rng.randint(1, 12)]) for s in shape]
             c["prefilter"] = False if order > 1 else rng.random() < 0.5
         elif kind == "weights":
@@ -169,6 +178,8 @@ def run_case(ctx, case):
                 sarr = [np.uint8(v) for v in ints]
             elif form == "pyint":
                 sarr = ints
+        if form == "scalar":
+            sarr = float(sh[0])
         skeep = np.array(sarr).copy()
         got = I.shift(a, sarr, order=order, mode=mode, prefilter=case["prefilter"])
         if not np.array_equal(a, keep) or not np.array_equal(np.array(sarr), skeep):
